@@ -1345,7 +1345,7 @@ class CaseRunner:
             for m in S.topo(roots):
                 if m.op == "v":
                     if m.args[0] in S.SPECIAL_CONSTANTS or m.args[0] not in envx:
-                        return False
+                        return self._dbg_false("brackets:1")
                     mapping[m] = const(envx[m.args[0]])
             sub = S.substitute(roots, mapping)
             # abstract atoms -> constants of the stand-in
@@ -1353,16 +1353,16 @@ class CaseRunner:
             for m in S.topo(sub):
                 if m.op == "uf":
                     if ufe is None:
-                        return False
+                        return self._dbg_false("brackets:2")
                     umap[m] = const(Fraction(float(S.evalf(m, {}, uf_eval=ufe))))
             if umap:
                 sub = S.substitute(sub, umap)
             for a in assumptions:
                 try:
                     if not S.evalf(a, dict(env, **S.SPECIAL_CONSTANTS), uf_eval=ufe):
-                        return False
+                        return self._dbg_false("brackets:3")
                 except Exception:  # noqa: BLE001
-                    return False
+                    return self._dbg_false("brackets:4")
             n2 = Normalizer()
             node = sub[0] if len(sub) == 1 else S.mk("/", sub[0], sub[1])
             nn, dd = n2.ratnorm(node)
@@ -1373,10 +1373,10 @@ class CaseRunner:
                 info = n2.gen_info[g]
                 nd = info.get("node")
                 if info.get("kind") != "atom" or nd is None or nd.op != "root" or nd.args[0].op != "c":
-                    return False
+                    return self._dbg_false("brackets:5")
                 base, qq = nd.args[0].args[0], nd.args[1]
                 if base < 0 and qq % 2 == 0:
-                    return False
+                    return self._dbg_false("brackets:6")
                 sgn = -1 if base < 0 else 1
                 r0 = Fraction(float(abs(base)) ** (1.0 / qq))
                 ok = False
@@ -1386,7 +1386,7 @@ class CaseRunner:
                         ok = True
                         break
                 if not ok:
-                    return False
+                    return self._dbg_false("brackets:7")
                 boxes[g] = (lo, hi) if sgn > 0 else (-hi, -lo)
             lines = ["(set-logic QF_LRA)"]
             mon = {}
@@ -1417,8 +1417,16 @@ class CaseRunner:
             lines.append("(check-sat)")
             r = self.solve("\n".join(lines) + "\n", "z3", 20)
             return r.status == "unsat"
-        except (MemoryError, ValueError, ZeroDivisionError, OverflowError, KeyError, TypeError):
-            return False
+        except (MemoryError, ValueError, ZeroDivisionError, OverflowError, KeyError, TypeError) as e:
+            return self._dbg_false("brackets:8")
+
+    def _dbg_false(self, why):
+        if os.environ.get("VERIF_DEBUG"):
+            import traceback
+
+            print("DEBUG", why, file=sys.stderr)
+            traceback.print_exc()
+        return False
 
     def match_known(self, obname):
         for k in self.known:
